@@ -271,10 +271,10 @@ def structural_no_write_before_apply(repo):
         try:
             sites = fs_effect_sites(repo, rel)
         except (OSError, SyntaxError) as e:
-            out.append({'id': 'fs-effects:' + rel, 'kind': 'effect', 'ok': None, 'label': 'cannot parse %s: %s' % (rel, e)})
+            out.append({'id': 'fs-effects:' + rel, 'definite': True, 'kind': 'effect', 'ok': None, 'label': 'cannot parse %s: %s' % (rel, e)})
             continue
         bad = [s for s in sites if (rel, s[0]) not in ALLOWED_WRITERS]
-        out.append({'id': 'fs-effects:' + rel, 'kind': 'effect', 'ok': not bad,
+        out.append({'id': 'fs-effects:' + rel, 'definite': True, 'kind': 'effect', 'ok': not bad,
                     'label': '(c) no file-system mutation reachable in %s outside ChangedFile.apply/Refactoring.apply'
                              % rel,
                     'detail': 'sites: %r; offending: %r' % (sites, bad)})
@@ -296,7 +296,7 @@ def structural_no_write_before_apply(repo):
         order.sort()
         kinds = [k for _, k in order]
         ok = fn is not None and kinds == ['apply', 'rename']
-        out.append({'id': 'apply-order', 'kind': 'effect', 'ok': ok,
+        out.append({'id': 'apply-order', 'definite': True, 'kind': 'effect', 'ok': ok,
                     'label': '(d) Refactoring.apply writes contents first and renames second',
                     'detail': repr(order)})
         # newline='' on the write
@@ -312,11 +312,11 @@ def structural_no_write_before_apply(repo):
                                 if 'newline' in kw and isinstance(kw['newline'], ast.Constant) \
                                         and kw['newline'].value == '':
                                     ok2 = True
-        out.append({'id': 'apply-newline', 'kind': 'effect', 'ok': ok2,
+        out.append({'id': 'apply-newline', 'definite': True, 'kind': 'effect', 'ok': ok2,
                     'label': '(d)/(e) ChangedFile.apply opens the file with newline="" (no newline translation)',
                     'detail': ''})
     except (OSError, SyntaxError) as e:
-        out.append({'id': 'apply-order', 'kind': 'effect', 'ok': None, 'label': 'cannot parse: %s' % e})
+        out.append({'id': 'apply-order', 'definite': True, 'kind': 'effect', 'ok': None, 'label': 'cannot parse: %s' % e})
     return out
 
 
